@@ -64,7 +64,7 @@ def scan_channel(chdir):
     return out
 
 
-def boundary_triple(digital_rf, root, rng, n, d, fc, sc, j, mode, dtype="i2"):
+def boundary_triple(digital_rf, root, rng, n, d, fc, sc, j, mode, dtype="i2", contig=None):
     """three one-sample writes at FileStart(j*fc) + {-1, 0, +1}; returns rf records of the files produced"""
     t = j * fc
     ks = -((-t * n) // (1000 * d))
@@ -78,7 +78,7 @@ def boundary_triple(digital_rf, root, rng, n, d, fc, sc, j, mode, dtype="i2"):
     one = np.array([7], dtype=dtype)
     raised = False
     try:
-        if rng.random() < 0.5 and ks - 1 >= start:
+        if (rng.random() < 0.5 if contig is None else contig) and ks - 1 >= start:
             # one contiguous write across the boundary (the writer has to split it)
             w.rf_write(np.array([7, 8, 9], dtype=dtype), ks - 1 - start)
         else:
